@@ -42,3 +42,48 @@ package packfile
 //gvc:  theory bv
 //gvc:  ensures e: result == (offset + sz > srcSz)
 //gvc:end
+
+//gvc:func decodeOffset
+//gvc:  props C06 C53
+//gvc:  theory bv
+//gvc:  results off rest err
+//gvc:  let need = spec_popcount4(cmd & 0x0f)
+//gvc:  ensures short: (err != nil) == (len(delta) < need)
+//gvc:  ensures kind: err != nil ==> err == ErrInvalidDelta
+//gvc:  ensures rest: err == nil ==> rest == delta[need:]
+//gvc:  ensures val: err == nil ==> off == spec_copy_offset(cmd, arr(delta), off(delta))
+//gvc:  ensures bound: err == nil ==> off <= 0xffffffff
+//gvc:end
+
+//gvc:func decodeSize
+//gvc:  props C06 C53
+//gvc:  theory bv
+//gvc:  results sz rest err
+//gvc:  let need = spec_popcount3((cmd >> 4) & 0x07)
+//gvc:  ensures short: (err != nil) == (len(delta) < need)
+//gvc:  ensures kind: err != nil ==> err == ErrInvalidDelta
+//gvc:  ensures rest: err == nil ==> rest == delta[need:]
+//gvc:  ensures val: err == nil ==> sz == spec_copy_size(cmd, arr(delta), off(delta))
+//gvc:  ensures bound: err == nil ==> 1 <= sz && sz <= 0xffffff
+//gvc:end
+
+//gvc:func patchDelta
+//gvc:  props C06 C53
+//gvc:  theory int
+//gvc:  results err
+//gvc:  requires dstnn: dst != nil
+//gvc:  let d0 = arr(delta)
+//gvc:  let p0 = off(delta)
+//gvc:  let n0 = len(delta)
+//gvc:  let h1 = spec_leb_scan(d0, p0, n0)
+//gvc:  let h2 = spec_leb_scan(d0, p0 + h1, n0 - h1)
+//gvc:  let tsz = spec_leb_value(d0, p0 + h1, h2)
+//gvc:  loop 1 invariant suffix: same_array(delta, old(delta)) && off(delta) + len(delta) == p0 + n0 && off(delta) >= p0
+//gvc:  loop 1 invariant account: dst.#wlen - old(dst.#wlen) + remainingTargetSz == targetSz
+//gvc:  loop 1 invariant src: srcSz == len(src)
+//gvc:  loop 1 decreases remainingTargetSz
+//gvc:  ensures complete: err == nil && n0 >= 1 && h1 < n0 ==> dst.#wlen - old(dst.#wlen) == tsz
+//gvc:  ensures nohdr: err == nil && (n0 == 0 || h1 >= n0) ==> dst.#wlen == old(dst.#wlen)
+//gvc:  ensures consumed: err == nil ==> len(now(delta)) == 0
+//gvc:  ensures srcsize: err == nil && n0 >= 1 ==> spec_leb_value(d0, p0, h1) == len(src)
+//gvc:end
